@@ -239,10 +239,11 @@ func funcKey(fn *ssa.Function) string {
 // ---------------------------------------------------------------- sorts
 
 func typeKey(t types.Type) string {
-	return types.TypeString(t, nil)
+	return types.TypeString(types.Unalias(t), nil)
 }
 
 func (vc *VC) sortOf(t types.Type) string {
+	t = types.Unalias(t)
 	if vc.mode == ValueMode {
 		if s, ok := valueModeSorts[typeKey(t)]; ok {
 			vc.needSort(s)
@@ -305,12 +306,12 @@ const basePrelude = `(declare-datatypes ((Slice 0)) (((mk_slice (s_ref Int) (s_o
 (declare-fun str_len (Str) Int)
 (declare-fun str_lt (Str Str) Bool)
 (declare-fun str_cat (Str Str) Str)
-(assert (forall ((s Str)) (! (>= (str_len s) 0) :pattern ((str_len s)))))
+(assert (forall ((s Str)) (! (and (>= (str_len s) 0) (<= (str_len s) 281474976710656)) :pattern ((str_len s)))))
 (declare-sort Bytes 0)
 (declare-fun bytes_len (Bytes) Int)
 (declare-fun bytes_nil () Bytes)
 (declare-fun bytes_at (Bytes Int) Int)
-(assert (forall ((s Bytes)) (! (>= (bytes_len s) 0) :pattern ((bytes_len s)))))
+(assert (forall ((s Bytes)) (! (and (>= (bytes_len s) 0) (<= (bytes_len s) 281474976710656)) :pattern ((bytes_len s)))))
 (assert (= (bytes_len bytes_nil) 0))
 (declare-sort Coins 0)
 (declare-fun coins_amt (Coins Str) Int)
@@ -326,6 +327,7 @@ const basePrelude = `(declare-datatypes ((Slice 0)) (((mk_slice (s_ref Int) (s_o
 `
 
 func structSortName(t types.Type) string {
+	t = types.Unalias(t)
 	if n, ok := t.(*types.Named); ok {
 		p := ""
 		if n.Obj().Pkg() != nil {
